@@ -20,7 +20,7 @@ KEY_POOLS = {
     "odd": ["1st", "9lives", "a b", "a.b", "_private", "__dunder__", "$ref", "@id", "x!", "0day", "00x", "2nd_", "_0", "$", "-"],
 }
 SCALAR_KINDS = ["int", "float", "bool", "null", "str_plain", "str_long", "str_int", "str_float", "str_bool",
-                "str_date", "str_datetime", "str_time", "str_time_tz"]
+                "str_date", "str_datetime", "str_time", "str_time_tz", "str_enum"]
 CONTAINER_KINDS = ["list_empty", "list_int", "list_str", "list_mixed", "list_nested", "dict_empty", "dict_like",
                    "dict_mixed_keys"]
 ALL_FRAMEWORKS = ["base", "pydantic", "attrs", "dataclasses", "sqlmodel"]
@@ -52,6 +52,9 @@ def scalar(rng, kind):
         return rng.choice(["2020-01-02T03:04:05", "2018-11-30T12:00:00Z"])
     if kind == "str_time":
         return rng.choice(["12:30", "03:04:05"])
+    if kind == "str_enum":
+        # 17 short values: the number of distinct literals of a field straddles the limits (10 default, 15 hard)
+        return "v%02d" % rng.randrange(17)
     if kind == "str_time_tz":
         # time-like strings the date parser accepts only with a warning (unknown timezone abbreviation) or not at all
         return rng.choice(["09:30 EST", "10:15 XYZ", "7pm PST", "12:30 UTC", "25:61"])
@@ -312,7 +315,7 @@ def draw_knobs(rng: random.Random, **fixed):
         "n_shapes": rng.randint(1, 5),
         "width": rng.randint(1, 7),
         "depth": rng.randint(1, 4),
-        "samples": rng.randint(1, 6),
+        "samples": rng.choice([rng.randint(1, 6)] * 9 + [rng.randint(12, 40)]),
         "n_models": rng.choice([1, 1, 1, 1, 2, 2, 3, 3, 5, 7]),
         "p_nested": rng.choice([0.0, 0.15, 0.3, 0.5]),
         "p_list_obj": rng.choice([0.0, 0.1, 0.25]),
